@@ -214,14 +214,16 @@ def install(M):
             if digits % 2:
                 raise_builtin('binascii.Error', 'Odd-length string')
             w = digits // 2
-            t = n
-
-            def atf(i, t=t, w=w):
-                e = z3.IntVal(0)
-                for k in range(w - 1, -1, -1):
-                    e = z3.If(i == k, (t / (256 ** (w - 1 - k))) % 256, e)
-                return e
-            return SBytes(w, atf)
+            return pack_int(it, mk_num(n), w)
+        # zero padding in front of hex(n)[2:]:  '000' + hexdigits(n)
+        if len(v.parts) == 2 and isinstance(v.parts[0], str) and set(v.parts[0]) <= {'0'} and isinstance(v.parts[1], Atom) and \
+                v.parts[1].kind == 'hexint' and v.parts[1].extra == ('', 'x'):
+            n = v.parts[1].t
+            digits = len(v.parts[0]) + it.p.concretize(hexdigits_term(n), limit=40, what='hex digit count')
+            if digits % 2:
+                raise_builtin('binascii.Error', 'Odd-length string')
+            w = digits // 2
+            return pack_int(it, mk_num(n), w)
         raise Unsupported('unhexlify of structured string')
     M.unhexlify_sstr = unhexlify_sstr
 
